@@ -102,6 +102,10 @@ pub fn items(env: &Env, full: bool) -> Vec<Item> {
     let q = format!("context-id={}&limit=2", env.ctx_a);
     add("cat-ctx", Req::new("GET", &format!("/?{}", q)).header("Accept", b"text/event-stream"), Kind::Cat { query: Some(q), valid: true, sse: true });
     add("cat-tail", Req::new("GET", "/?tail=true"), Kind::Cat { query: Some("tail=true".into()), valid: true, sse: false });
+    let q = format!("context-id={}&last-id={}", env.ctx_a, env.f0);
+    add("cat-ctx-lastid", Req::new("GET", &format!("/?{}", q)), Kind::Cat { query: Some(q), valid: true, sse: false });
+    add("cat-zero-ctx", Req::new("GET", "/?context-id=0000000000000000000000000&limit=3"), Kind::Cat { query: Some("context-id=0000000000000000000000000&limit=3".into()), valid: true, sse: false });
+    add("cat-follow-false", Req::new("GET", "/?follow=false&limit=1"), Kind::Cat { query: Some("follow=false&limit=1".into()), valid: true, sse: false });
     for (n, q) in [("cat-badlimit", "limit=x"), ("cat-neglimit", "limit=-1"), ("cat-badfollow", "follow=bogus"), ("cat-badlast", "last-id=zzz"), ("cat-badctx", "context-id=12345")] {
         add(n, Req::new("GET", &format!("/?{}", q)), Kind::Cat { query: Some(q.into()), valid: false, sse: false });
     }
@@ -115,6 +119,13 @@ pub fn items(env: &Env, full: bool) -> Vec<Item> {
     add("post-ctx", Req::new("POST", &format!("/a?context={}", env.ctx_a)), Kind::Append(AppendK { ctx: Some(env.ctx_a), ..appk("a") }));
     add("post-unregctx", Req::new("POST", &format!("/a?context={}", env.unreg_ctx)), Kind::Append(AppendK { ctx: Some(env.unreg_ctx), ..appk("a") }));
     add("post-badctx", Req::new("POST", "/a?context=zzz"), Kind::Append(AppendK { ctx_valid: false, ..appk("a") }));
+    add("post-ephemeral", Req::new("POST", "/a?ttl=ephemeral").body(b"gone"), Kind::Append(AppendK { ttl: Some("ephemeral".into()), body: Some(b"gone".to_vec()), ..appk("a") }));
+    let m2 = json!({"k": "v"});
+    add(
+        "post-all-options",
+        Req::new("POST", &format!("/ab?context={}&ttl=head:2", env.ctx_a)).body(b"combined").header("xs-meta", &b64(&m2.to_string())),
+        Kind::Append(AppendK { ctx: Some(env.ctx_a), ttl: Some("head:2".into()), meta: Some(m2.clone()), body: Some(b"combined".to_vec()), ..appk("ab") }),
+    );
     add("post-register", Req::new("POST", "/xs.context"), app("xs.context"));
     add("post-register-in-ctx", Req::new("POST", &format!("/xs.context?context={}", env.ctx_a)), Kind::Append(AppendK { ctx: Some(env.ctx_a), ..appk("xs.context") }));
     for (n, t) in [("post-ttl-head0", "head:0"), ("post-ttl-bogus", "bogus"), ("post-ttl-neg", "time:-1"), ("post-ttl-overflow", "head:4294967296")] {
@@ -133,6 +144,8 @@ pub fn items(env: &Env, full: bool) -> Vec<Item> {
     add("delete", Req::new("DELETE", &format!("/{}", env.f0)), Kind::Remove { id: Some(env.f0) });
     add("delete-ctxreg", Req::new("DELETE", &format!("/{}", env.ctx_a)), Kind::Remove { id: Some(env.ctx_a) });
     add("delete-unknown", Req::new("DELETE", &format!("/{}", env.unknown_id)), Kind::Remove { id: Some(env.unknown_id) });
+    add("delete-in-ctx", Req::new("DELETE", &format!("/{}", env.fa)), Kind::Remove { id: Some(env.fa) });
+    add("get-in-ctx", Req::new("GET", &format!("/{}", env.fa)), Kind::Get { id: Some(env.fa) });
     add("delete-badid", Req::new("DELETE", "/zzz"), Kind::Remove { id: None });
     // head
     add("head", Req::new("GET", "/head/a"), Kind::Head { topic: "a".into(), ctx: None, ctx_valid: true });
@@ -148,12 +161,18 @@ pub fn items(env: &Env, full: bool) -> Vec<Item> {
     // import
     let imp = Frame::builder("imp", ZERO_CONTEXT).id(Scru128Id::from_u128(env.f0.to_u128() + 1)).meta(json!({"i": true})).build();
     add("import", Req::new("POST", "/import").body(serde_json::to_string(&imp).unwrap().as_bytes()), Kind::Import { frame: Some(imp), storable: true });
+    let impc = Frame::builder("impc", env.ctx_a).id(Scru128Id::from_u128(env.f1.to_u128() + 1)).ttl(TTL::Head(3)).build();
+    add("import-in-ctx", Req::new("POST", "/import").body(serde_json::to_string(&impc).unwrap().as_bytes()), Kind::Import { frame: Some(impc), storable: true });
+    let impr = Frame::builder("xs.context", ZERO_CONTEXT).id(Scru128Id::from_u128(env.ctx_a.to_u128() + 1)).ttl(TTL::Forever).build();
+    add("import-registration", Req::new("POST", "/import").body(serde_json::to_string(&impr).unwrap().as_bytes()), Kind::Import { frame: Some(impr), storable: true });
     add("import-badjson", Req::new("POST", "/import").body(b"{\"topic\": 1"), Kind::Import { frame: None, storable: false });
     let nul = Frame::builder("a\0b", ZERO_CONTEXT).id(Scru128Id::from_u128(env.f0.to_u128() + 2)).build();
     add("import-nul", Req::new("POST", "/import").body(serde_json::to_string(&nul).unwrap().as_bytes()), Kind::Import { frame: Some(nul), storable: false });
     // no route
     add("put-root", Req::new("PUT", "/"), Kind::NoRoute { expect: 404 });
     add("patch", Req::new("PATCH", "/a"), Kind::NoRoute { expect: 404 });
+    add("options", Req::new("OPTIONS", "/"), Kind::NoRoute { expect: 404 });
+    add("post-cas-sub", Req::new("POST", "/cas/x").body(b"x"), Kind::Append(AppendK { body: Some(b"x".to_vec()), ..appk("cas/x") }));
     if full {
         add("post-root", Req::new("POST", "/"), app(""));
         add("get-deep", Req::new("GET", "/no/such/path"), Kind::Get { id: None });
@@ -293,7 +312,15 @@ pub fn step(server: &Server, item: &Item, conn: &mut Option<Conn>) -> (String, V
                 let gone = before_frames.iter().filter(|b| !after_frames.iter().any(|f| f.id == b.id)).count();
                 let ttl_v = ttl.as_ref().map(|t| xs::store::parse_ttl(t).unwrap()).unwrap_or(TTL::Forever);
                 let want_ttl = if topic == "xs.context" { TTL::Forever } else { ttl_v };
-                if new.len() != 1 {
+                if want_ttl == TTL::Ephemeral {
+                    if !new.is_empty() {
+                        bad("http.effect", "an ephemeral append was stored".into());
+                    }
+                    match serde_json::from_slice::<Frame>(&resp.body) {
+                        Ok(r) if r.topic == *topic && r.ttl == Some(TTL::Ephemeral) && r.context_id == ctx_id => {}
+                        _ => bad("http.body", "response of an ephemeral append is not the frame".into()),
+                    }
+                } else if new.len() != 1 {
                     bad("http.effect", format!("append added {} frames", new.len()));
                 } else {
                     let f = new[0];
